@@ -120,11 +120,20 @@ def oracle_c02(rr: Any, spec: Dict[str, Any]) -> "tuple[List[Violation], int, in
     })
     prefixes = 0
     acks = 0
+    # messages whose timeout label cannot be read as a number: their execution fails before the function is called
+    bad_tmo = set()
+    for d_, i_ in info.items():
+        raw = (_msg_for(spec, i_) or {}).get("timeout_raw") if i_.get("kind") == "valid" else None
+        if isinstance(raw, str) and not _is_number(raw):
+            bad_tmo.add(d_)
     for e in tr:
         prefixes += 1
         d = e["m"]
         k = e["k"]
         s = st[d]
+        if k == "cb_enter" and d in bad_tmo:
+            s["ended"] = True
+            s["how"] = "raise"
         if k == "task_start":
             s["started"] = True
             s["thread"] = bool(e.get("thread"))
@@ -216,6 +225,19 @@ def oracle_c03(rr: Any, spec: Dict[str, Any]) -> "tuple[List[Violation], Dict[st
             # a middleware hook called for a message is part of the processing of that message, for as long as it runs
             hooks_open[d] = hooks_open.get(d, 0) + 1
         elif k.startswith("mw_end:") and d is not None:
+            hooks_open[d] = hooks_open.get(d, 0) - 1
+            if hooks_open[d] <= 0 and d in exited:
+                open_cb.discard(d)
+        elif k == "set_enter" and d is not None:
+            # so is the writing of its result (a slow or failing result backend is one of the processing outcomes)
+            hooks_open[d] = hooks_open.get(d, 0) + 1
+            if d not in open_cb:
+                # (written by something that outlives the callback: the message is in processing again)
+                open_cb.add(d)
+                if A and len(open_cb) > A:
+                    v.append(Violation("over-admission", f"{len(open_cb)} messages in processing > max_async_tasks={A} at t={e['t']}: the result of "
+                                       f"delivery {d} is being written after its slot was given to another message"))
+        elif k in ("set_exit", "set_fail") and d is not None:
             hooks_open[d] = hooks_open.get(d, 0) - 1
             if hooks_open[d] <= 0 and d in exited:
                 open_cb.discard(d)
@@ -503,6 +525,10 @@ def oracle_c06(rr: Any, spec: Dict[str, Any]) -> "tuple[List[Violation], int]":
         if m.get("timeout") is not None or m.get("timeout_raw") is not None:
             nm.add("timeout")
         names_of[m.get("tok") or f"m{i}"] = sorted(nm)
+        for b_ in (m.get("beh") if isinstance(m.get("beh"), list) else [m.get("beh") or {}]):
+            ch = b_.get("spawn")
+            if ch:
+                names_of[ch["tok"]] = sorted(set(map(str, ch.get("labels", {}))) | {"own"})
 
     def chk(echo: Any, d: Any, where: str, uncached: bool = False) -> None:
         nonlocal checked
